@@ -81,8 +81,17 @@ func (w *dcmiCap5) DecodeFromBytes(d []byte, df gopacket.DecodeFeedback) error {
 // the three DCMI versions: (major, minor, parameter revision)
 var dcmiVersions = [][]byte{{1, 0, 1}, {1, 1, 2}, {1, 5, 2}}
 
+// the parameter revision is a field of its own: the published value for the version, the OTHER published value, or any
+// byte — it must not influence how the rest of the response is read
 func dcmiHdr(rng *rand.Rand, from int) []byte {
-	return append([]byte(nil), dcmiVersions[from+rng.Intn(len(dcmiVersions)-from)]...)
+	h := append([]byte(nil), dcmiVersions[from+rng.Intn(len(dcmiVersions)-from)]...)
+	switch rng.Intn(4) {
+	case 0:
+		h[2] ^= 3 // 01 <-> 02
+	case 1:
+		h[2] = byte(rng.Intn(256))
+	}
+	return h
 }
 
 func cat(parts ...[]byte) []byte {
